@@ -132,6 +132,7 @@ func (n *vNode) build() *spec.Schema {
 		s.AllOf = []spec.Schema{*spec.RefSchema("#/definitions/" + n.ref)}
 		n.buildProps(s)
 	case vkUntyped:
+		n.buildProps(s)
 	}
 	return s
 }
